@@ -28,6 +28,14 @@ func c05Finite(r *fw.Rand) func(*fw.Rand, int) []float64 {
 			if r.Chance(1, 60) {
 				c[i] = []float64{math.Copysign(0, -1), math.MaxFloat64, 5e-324, 1e21, 1e-7, 0.1, 123456.789, -1e300}[r.Intn(8)]
 			}
+			if r.Chance(1, 12) {
+				// a short decimal (1..9 fractional digits) or its neighbour one or two ulps
+				// away: the shortest text of the neighbour is 16-17 digits long and must
+				// not be "tidied" into the short one
+				d := r.Range(1, 9)
+				v := math.Round(float64(r.Range(-99999, 99999))*math.Pow(10, float64(r.Range(0, d)))) / math.Pow(10, float64(d))
+				c[i] = gen.NextAfterN(v, r.Range(-2, 2))
+			}
 		}
 		return c
 	}
@@ -143,6 +151,37 @@ func c05Run(c *fw.Ctx, idx int) {
 	if !expectGeom(c, "wkt.Unmarshal(Marshal(g))", back, g, model.Opts{}) {
 		return
 	}
+	if g.Kind == model.Collection && len(g.Members) >= 2 && r.Chance(1, 2) {
+		// the caller pushes a part onto one member of the parsed collection: the
+		// other members stay what they are
+		if gc, ok := back.(*geom.GeometryCollection); ok {
+			for _, i := range r.Perm(len(g.Members)) {
+				mm := g.Members[i]
+				if mm.Kind == model.Collection || mm.Kind == model.Point || mm.Kind == model.LineString {
+					continue
+				}
+				g2 := g.Clone()
+				part := c02Part(r, mm.Kind, mm.Layout)
+				for try := 0; try < 8 && part.IsEmpty(); try++ {
+					part = c02Part(r, mm.Kind, mm.Layout)
+				}
+				tr := &tracked{kind: mm.Kind, t: gc.Geom(i), m: g2.Members[i]}
+				var perr error
+				if c.Guard("panic", func() { perr = tr.push(part.BuildFlat()) }) {
+					return
+				}
+				if perr != nil {
+					break
+				}
+				tr.modelPush(part)
+				c.Count("part_pushed_onto_a_member_of_a_parsed_collection")
+				if !expectGeom(c, fmt.Sprintf("parsed collection after a part was pushed onto its member %d", i), back, g2, model.Opts{}) {
+					return
+				}
+				break
+			}
+		}
+	}
 	if r.Chance(1, 2) {
 		// the parsed geometry is the caller's: it is filled further and overwritten;
 		// parsing the same or another text later must not hand out any of it again
@@ -226,8 +265,23 @@ func c05Run(c *fw.Ctx, idx int) {
 	c.Count("kept_encoder_compared")
 	if err != nil || t3 != text {
 		c.Fail("encoder-differs", "an Encoder kept and used before gave err=%v and %s; wkt.Marshal gave %s", err, clipStr(t3, 300), clipStr(text, 300))
+		return
 	}
+	// the text the kept encoder returned for the previous geometry is a string the
+	// caller still holds: it reads as it did
+	if c05KeptText != "" || c05KeptWant != "" {
+		c.Count("held_results_rechecked")
+		if c05KeptText != c05KeptWant {
+			c.Fail("result-invalidated", "the text an Encoder returned earlier changed after a later Encode on it: it was %s, now reads %s", clipStr(c05KeptWant, 200), clipStr(c05KeptText, 200))
+			c05KeptText, c05KeptWant = "", ""
+			return
+		}
+	}
+	c05KeptText, c05KeptWant = t3, strings.Clone(text)
 }
+
+// the text returned by the kept encoder for the previous case, and a private copy of what it said
+var c05KeptText, c05KeptWant string
 
 // c05Kept is one default Encoder used by every case of a worker process.
 var c05Kept *wkt.Encoder
